@@ -52,6 +52,24 @@ class ScriptedSocket:
             raise self.send_err()
         self.out += bytes(b)
 
+    # the single-attempt calls of a real socket accept only part of what they are given when the buffers are full
+    # (a timeout on the socket, a signal while blocked): whoever uses them must look at the count they return
+    PARTIAL = 65536
+
+    def send(self, b, *flags):
+        if self.send_err is not None:
+            raise self.send_err()
+        b = bytes(b)[:self.PARTIAL]
+        self.out += b
+        return len(b)
+
+    def sendmsg(self, buffers, *rest):
+        if self.send_err is not None:
+            raise self.send_err()
+        b = b''.join(bytes(x) for x in buffers)[:self.PARTIAL]
+        self.out += b
+        return len(b)
+
 
 FINS = {None: None, 'reset': ConnectionResetError, 'pipe': BrokenPipeError,
         'aborted': ConnectionAbortedError, 'timeout': TimeoutError}
@@ -293,7 +311,7 @@ def main(tier, seed, replay=None):
     terms.append(f'check_all_segmentations [{rle(datas[0])}; {rle(datas[1])}] [OMsg 0%nat; OMsg 1%nat; OExn EConnClosed]')
     # sender
     from pyworkers import remote
-    for msgs, err in ([[None, b'abc', (1, 2)], None], [[b'x' * 70000], None], [[None, 1], 'pipe'], [[b''], 'timeout']):
+    for msgs, err in ([[None, b'abc', (1, 2)], None], [[b'x' * 70000], None], [[1, b'y' * 400000, 2], None], [[None, 1], 'pipe'], [[b''], 'timeout']):
         s = ScriptedSocket(b'', [], None, FINS[err])
         e = None
         try:
